@@ -77,7 +77,9 @@ def batch(rng, cls):
         foot = np.exp(-0.5 * ((np.arange(C) - c0) / float(rng.uniform(0.5, 3))) ** 2)
         foot[c0] = 1.0
         w = amp * x[:, None] * foot[None, :]
-        w += amp * float(rng.choice([0.0, 0.01, 0.05])) * rng.standard_normal((T, C))
+        # always some noise: noiseless Gaussian tails underflow into subnormal numbers and exact zeros, where ties exist and scaling
+        # by a power of two is no longer exact
+        w += amp * float(rng.choice([0.002, 0.01, 0.05])) * rng.standard_normal((T, C))
         arr[i] = w
         meta.append((pol, pk, c0))
     if cls == "nanpad" and C > 1:
